@@ -65,11 +65,14 @@ pub struct ResultSender { _p: u8 }     // tokio oneshot::Sender<(Tag, Vec<Contro
 pub struct CertSender { _p: u8 }       // tokio oneshot::Sender<Option<Vec<u8>>>
 impl ItemSender {
     pub uninterp spec fn owner(&self) -> i32;
+    // prophecy: whether the receiving end still exists when this value is sent (send fails only if it was dropped)
+    pub uninterp spec fn accepts(&self, v: (SearchItem, Vec<Control>)) -> bool;
     #[verifier::external_body]
     pub fn send(&self, v: (SearchItem, Vec<Control>)) -> (r: core::result::Result<(), (SearchItem, Vec<Control>)>)
         requires
             item_frame(v.0) == self.owner(), //# C01.search_item_routed_to_owner_of_its_message_id
             item_kind_ok(v.0), //# C01.entry_referral_done_classification
+        ensures r is Ok <==> self.accepts(v),
     { unimplemented!() }
 }
 impl Clone for ItemSender {
@@ -254,6 +257,12 @@ impl Conn {
         resp matches Some(Ok(t)) ==> (old(self).searchmap@.contains_key(t.0) ==>
             final(self).resultmap@ == old(self).resultmap@
             && (final(self).searchmap@ == old(self).searchmap@ || final(self).searchmap@ == old(self).searchmap@.remove(t.0))), //# C01.search_item_touches_only_its_route
+        // an entry / reference / intermediate response that its stream accepted leaves the search registered: the
+        // operation keeps receiving everything the server sends under its ID, up to SearchResultDone
+        resp matches Some(Ok(t)) ==> (old(self).searchmap@.contains_key(t.0) && (t.1.0 matches Tag::StructureTag(s)
+            && ((s.id == 4 || s.id == 25) && old(self).searchmap@[t.0].accepts((SearchItem::Entry(s), t.1.1))
+                || s.id == 19 && old(self).searchmap@[t.0].accepts((SearchItem::Referral(s), t.1.1)))) ==>
+            final(self).searchmap@ == old(self).searchmap@ && final(self).msgmap.1@ == old(self).msgmap.1@), //# C01+C10.search_stays_registered_until_done_or_its_stream_is_dropped
         // E2: SearchResultDone delivered => route released and id released
         resp matches Some(Ok(t)) ==> (old(self).searchmap@.contains_key(t.0) && (t.1.0 matches Tag::StructureTag(s) && s.id == 5) ==>
             !final(self).searchmap@.contains_key(t.0)), //# C13.E2_search_done_releases_route
